@@ -69,16 +69,22 @@ impl Debt {
     #[inline]
     pub(crate) fn pay<T: RefCnt>(&self, ptr: *const T::Base) -> bool {
         self.0
-            // If we don't change anything because there's something else, Relaxed is fine.
-            //
-            // The Release works as kind of Mutex. We make sure nothing from the debt-protected
-            // sections leaks below this point.
+            // The Release part works as kind of Mutex. We make sure nothing from the
+            // debt-protected sections leaks below this point.
             //
             // Note that if it got paid already, it is inside the reference count. We don't
             // necessarily observe that increment, but whoever destroys the pointer *must* see the
             // up to date value, with all increments already counted in (the Arc takes care of that
             // part).
-            .compare_exchange(ptr as usize, Self::NONE, Release, Relaxed)
+            //
+            // The failure case must not be Relaxed, though. A writer walking the slots after its
+            // SeqCst swap of the pointer relies on *seeing* a debt that a reader confirmed against
+            // the old pointer; a failed compare_exchange is just a load with the failure ordering
+            // and only a SeqCst load is ordered after that swap (otherwise it may legally return
+            // the stale empty value, the debt is missed and the value freed under a live guard).
+            // It also needs to acquire the reader's paying the debt back, so that what the reader
+            // did with the value happens before a destruction by whoever comes after the writer.
+            .compare_exchange(ptr as usize, Self::NONE, SeqCst, SeqCst)
             .is_ok()
     }
 
